@@ -239,8 +239,14 @@ func credentialIsSecure(credential string) error {
 		secureSignatureCount++
 	}
 
-	// Accept messages containing secure signatures
-	if secureSignatureCount > 0 {
+	// Reject messages carrying more than one signature: the signature that verifies could be another one than
+	// the authorized key's, and only one signer can be authenticated
+	if secureSignatureCount > 1 {
+		return errors.New("multiple signatures found")
+	}
+
+	// Accept messages containing exactly one secure signature
+	if secureSignatureCount == 1 {
 		return nil
 	}
 
